@@ -27,10 +27,15 @@ func checkC08(c *Ctx) {
 }
 
 func checkC17(c *Ctx) {
-	c.rule = "TRACE: the hostile inputs of C08 plus message-begin inputs; for every failing thrift.Binary call TLC derives the cause set from the reference grammar and requires TypeId() in {TypeIdOf(cause)}; for stream skippers whose only admissible cause is truncation it requires errors.Is(err, source error)."
+	c.MC("MC_ThriftWire.tla", "MC_ThriftWire.cfg", 4)
+	c.rule = "MC: grammar causes (ThriftSkip) and decoder causes incl. all 65536 version words (ThriftWire). TRACE: the hostile inputs of C08 plus hostile scalar/header/string/message-begin inputs; for every failing thrift.Binary call TLC derives the cause set from the reference grammar and requires TypeId() in {TypeIdOf(cause)}; for stream skippers whose only admissible cause is truncation it requires errors.Is(err, source error)."
 	mcSkip(c, "MC_ThriftSkip_small.cfg")
 	c.TraceCheck(famSkipC17, hostileSkipCases(c, c.Pick(120, 2500), 17))
-	checkC17Readers(c)
+	// thrift.Binary readers and message-begin (buffer: type id by cause) and the stream reader
+	// (source errors io.EOF / io.ErrUnexpectedEOF / a custom error stay matchable with errors.Is)
+	cases := hostileWireCases(c)
+	cases = append(cases, msgCases(c)...)
+	c.TraceCheck(famWireC17, cases)
 }
 
 func init() {
@@ -38,5 +43,3 @@ func init() {
 	checks["C08"] = checkC08
 	checks["C17"] = checkC17
 }
-
-func checkC17Readers(c *Ctx) {} // extended below (stream reader error wrapping)
